@@ -29,11 +29,15 @@ type rOp struct {
 
 type rBlock struct {
 	Dt  int64 `json:"dt_s"`
+	Ms  int64 `json:"dt_ms,omitempty"` // added to Dt: consensus times carry a sub-second part
 	Ops []rOp `json:"ops,omitempty"`
 }
 
 func (b rBlock) String() string {
 	parts := []string{fmt.Sprintf("dt=%d", b.Dt)}
+	if b.Ms != 0 {
+		parts[0] = fmt.Sprintf("dt=%d.%03d", b.Dt, b.Ms)
+	}
 	for _, o := range b.Ops {
 		s := fmt.Sprintf("%s(m%d", o.Kind, o.Who)
 		if o.Var != "" {
@@ -182,6 +186,8 @@ func (in *c16Inst) Menu(nd mc.Node, depth int) []rBlock {
 	a, b := in.nGen, in.nGen+1
 	m := []rBlock{
 		{Dt: 1}, {Dt: 30}, {Dt: 100},
+		// times with a sub-second part: just short of / just past the accept timeout and the electing period
+		{Dt: 29, Ms: 600}, {Ms: 500}, {Dt: 99, Ms: 600},
 		{Dt: 1, Ops: []rOp{{Kind: "add", Who: a}}},
 		{Dt: 1, Ops: []rOp{{Kind: "add", Who: b}}},
 		{Dt: 1, Ops: []rOp{{Kind: "add", Who: a}, {Kind: "add", Who: a}}},
@@ -192,6 +198,7 @@ func (in *c16Inst) Menu(nd mc.Node, depth int) []rBlock {
 		{Dt: 1, Ops: []rOp{{Kind: "newvoter", Who: a, Var: "forged-txproof"}}},
 		{Dt: 1, Ops: []rOp{{Kind: "newvoter", Who: a, Var: "forged-blsproof"}}},
 		{Dt: 1, Ops: []rOp{{Kind: "newvoter", Who: a, Var: "wrong-blskey"}}},
+		{Dt: 1, Ops: []rOp{{Kind: "newvoter", Who: a, Var: "substituted-blskey"}}},
 		{Dt: 1, Ops: []rOp{{Kind: "newvoter", Who: a, Var: "other-epoch"}}},
 		{Dt: 1, Ops: []rOp{{Kind: "newvoter", Who: a, Var: "bls-proof-of-previous-epoch"}}},
 		{Dt: 1, Ops: []rOp{{Kind: "newvoter", Who: a, Var: "tx-proof-of-previous-epoch"}}},
@@ -254,6 +261,7 @@ func (in *c16Inst) newVoterMsg(s *rSnap, chainID string, who int, variant string
 	signedProposer := proposer
 	blsSigner := bls
 	txSigner := txKey
+	var hashOf sim.BLSKey // the vote key whose hash the signed registration commits to (default: the submitted one)
 	genuine := has && rec.Status == relayertypes.VOTER_STATUS_PENDING && variant == "genuine"
 	switch variant {
 	case "genuine":
@@ -262,6 +270,13 @@ func (in *c16Inst) newVoterMsg(s *rSnap, chainID string, who int, variant string
 	case "forged-blsproof":
 		blsSigner = sim.NewBLSKey("forger")
 	case "wrong-blskey":
+		bls = sim.NewBLSKey("another-key")
+		blsSigner = bls
+	case "substituted-blskey":
+		// another vote key than the registered one, with both proofs made over the genuine
+		// registration (which commits to the registered key hash): only the comparison of the
+		// submitted key with that hash stands between it and the group
+		hashOf = bls
 		bls = sim.NewBLSKey("another-key")
 		blsSigner = bls
 	case "other-epoch":
@@ -276,7 +291,10 @@ func (in *c16Inst) newVoterMsg(s *rSnap, chainID string, who int, variant string
 		proposer = in.members[len(in.members)-1].AddrStr()
 		signedProposer = proposer
 	}
-	voteKeyHash := sha256.Sum256(bls.PK)
+	if hashOf.PK == nil {
+		hashOf = bls
+	}
+	voteKeyHash := sha256.Sum256(hashOf.PK)
 	req := relayertypes.NewOnBoardingVoterRequest(height, m.Addr(), voteKeyHash[:])
 	sigMsg := relayertypes.VoteSignDoc(req.MethodName(), chainID, signedProposer, 0, epoch, req.SignDoc())
 	// one of the two proofs made in the previous epoch (a proof that was genuine then), the other fresh
@@ -338,7 +356,7 @@ func (in *c16Inst) Step(nd mc.Node, b rBlock, path []rBlock, silent bool) mc.Nod
 		}
 	}
 	h := pre.height + 1
-	t := pre.time.Add(time.Duration(b.Dt) * time.Second)
+	t := pre.time.Add(time.Duration(b.Dt)*time.Second + time.Duration(b.Ms)*time.Millisecond)
 	bctx, _ := pre.ctx.CacheContext()
 	bctx = bctx.WithBlockHeight(h).WithBlockTime(t).WithEventManager(sdk.NewEventManager()).WithHeaderHash(sim.FakeBlockHash(h, nil))
 	next := &rNode{height: h, time: t, acceptedAt: map[int]uint64{}, refAccepted: pre.refAccepted}
